@@ -512,6 +512,9 @@ impl RawLexer {
             None => return false,
             Some(c) => c,
         };
+        if !char_3.is_ascii() {
+            return false;
+        }
         // The ^^xy form: two lower case hex digits denote the character with that code.
         let hex = |c: char| matches!(c, '0'..='9' | 'a'..='f').then(|| c.to_digit(16).unwrap());
         let char_4 = self.current_line[char_3_start + char_3.len_utf8()..].chars().next();
@@ -530,9 +533,6 @@ impl RawLexer {
             self.advance();
         }
         self.advance();
-        if !char_3.is_ascii() {
-            return true;
-        }
         let u: u8 = match (char_3 as u32).try_into() {
             Ok(u) => u,
             Err(_) => return true, // unreachable because char_3 is ASCII
